@@ -149,3 +149,17 @@ static void run_9009(const ShapeDesc& sd, RunCtl& ctl) {
 static const ShapeDesc shape_9009 = {9009, "unifex::any_sender_of<>(unifex::schedule(e.sched(1)))", nodes_9009, 2, 0, 0, 1, &run_9009};
 static Reg reg_9009(&shape_9009);
 }  // namespace
+namespace {
+using namespace ef;
+// P9010: via over a leaf whose value has throwing moves: on every path (also when storing the value throws) the result is delivered on the scheduler's context
+static const NodeDesc nodes_9010[] = {
+  {K_VIA, 1, 2, 2, {1, 2, 0, 0, 0}, 'V'},
+  {K_LEAF, 2, 0, 0, {0, 0, 0, 0, 0}, 'V'},
+  {K_SCHEDULE, 3, 2, 0, {0, 0, 0, 0, 0}, 'E'}
+};
+static void run_9010(const ShapeDesc& sd, RunCtl& ctl) {
+  run_shape_impl<Cfg<3>>(sd, ctl, [](auto e) { return unifex::via(e.leaf(0), e.sched(2)); });
+}
+static const ShapeDesc shape_9010 = {9010, "unifex::via(e.leaf(0), e.sched(2))", nodes_9010, 3, 0, 1, 3, &run_9010};
+static Reg reg_9010(&shape_9010);
+}  // namespace
